@@ -17,9 +17,12 @@
    min_mapq > 0.
 
    Outside the model (exercised by the harness, not proved): samtools' pileup
-   engine itself, pysam.fetch, the process pool, the temporary chunk files, the
-   row order produced by tabio's sort in the --count path. *)
+   engine itself, pysam.fetch, the process pool.  The second half of this file
+   models the text layer of the pileup path (detect_bedcov_columns, the table read
+   from samtools' text, the table assembly), parallel.to_chunks on lines, and the
+   row order of the --count table (tabio sort + groupby on the chromosome name). *)
 From CNV Require Import Base.Prelude Base.Str Gen.Params Gen.CoverageDefaults.
+From CNV Require Import Model.Decimal Model.Chromsort.
 
 Definition block := (Z * Z)%type.
 
@@ -154,3 +157,237 @@ Definition coverage_chunks (k : nat) (alg : algo) (cut : Z) (reads : list read) 
   coverage_split alg cut reads (chunks k bins).
 
 End WithLog2.
+
+(* ========================================================================== *)
+(* Text layer of the pileup path: what `bedcov()` does with the text returned by
+   samtools bedcov, and what `interval_coverages_pileup` makes of the table.
+
+     columns = detect_bedcov_columns(raw)
+     table = pd.read_csv(StringIO(raw), sep="\t", names=columns, usecols=columns,
+                         dtype={"chromosome": "str", "gene": "str"}, keep_default_na=False)
+
+   samtools writes, for every BED line, the line's own fields followed by one more
+   tab-separated field, the number of covered bases.  pandas' tokenizer (oracle, but
+   modelled at the granularity used here): records end at "\n" or "\r", empty records are
+   skipped, fields are separated by `sep`; with the default quoting a field that STARTS
+   with a double quote is a quoted field -- modelled only in its simple form
+   "<text without quotes>", whose value is the inner text; any other field starting with
+   a quote is outside the model (None).  Integer columns are canonical decimals. *)
+
+Definition code_char (z : Z) : ascii := ascii_of_nat (Z.to_nat z).
+Definition TABC : ascii := code_char BEDCOV_TAB_CODE.         (* firstline.count("\t") *)
+Definition SEPC : ascii := code_char BEDCOV_SEP_CODE.         (* read_csv(sep="\t") *)
+Definition EOLC : ascii := code_char BEDCOV_LINE_END_CODE.    (* text.index("\n") *)
+Definition CRC : ascii := code_char 13.                       (* pandas also ends a record at "\r" *)
+Definition QUOTEC : ascii := code_char 34.                    (* pandas' default quotechar *)
+
+Definition is_char (a : ascii) (c : ascii) : bool := Ascii.eqb c a.
+Definition is_eol (c : ascii) : bool := is_char EOLC c || is_char CRC c.
+
+(* str.split on a character class: always at least one piece *)
+Fixpoint split_chars (sepb : ascii -> bool) (cs : list ascii) : list (list ascii) :=
+  match cs with
+  | [] => [[]]
+  | c :: t =>
+      if sepb c then [] :: split_chars sepb t
+      else match split_chars sepb t with
+           | f :: r => (c :: f) :: r
+           | [] => [[c]]
+           end
+  end.
+
+Definition nonempty {A} (l : list A) : bool := match l with [] => false | _ => true end.
+
+(* the records pandas sees: blank ones are skipped *)
+Definition text_lines (cs : list ascii) : list (list ascii) := filter nonempty (split_chars is_eol cs).
+
+(* text[: text.index(ch)] ; None = ValueError (substring not found) *)
+Fixpoint before_char (ch : ascii) (cs : list ascii) : option (list ascii) :=
+  match cs with
+  | [] => None
+  | c :: t => if Ascii.eqb c ch then Some [] else option_map (cons c) (before_char ch t)
+  end.
+
+Definition count_char (ch : ascii) (cs : list ascii) : Z := Z.of_nat (length (filter (Ascii.eqb ch) cs)).
+
+Fixpoint lookup_cols (n : Z) (tbl : list (Z * list string)) : option (list string) :=
+  match tbl with
+  | [] => None
+  | (k, cols) :: t => if n =? k then Some cols else lookup_cols n t
+  end.
+
+(* range(a, b) *)
+Definition z_range (a b : Z) : list Z := map (fun i => a + Z.of_nat i) (seq 0 (Z.to_nat (b - a))).
+
+(* [f"_{i}" for i in range(1, tabcount - 3)] *)
+Definition filler_names (tabcount : Z) : list string :=
+  map (fun i => (BEDCOV_FILLER_PREFIX ++ print_Z i)%string)
+      (z_range BEDCOV_FILLER_FROM (tabcount - BEDCOV_FILLER_STOP_MINUS)).
+
+Inductive detect_result :=
+| DetectNoNewline                      (* text.index("\n") raises ValueError *)
+| DetectBadLine                        (* fewer than 3 tabs: RuntimeError *)
+| DetectCols (cols : list string).
+
+Definition detect_bedcov_columns (text : list ascii) : detect_result :=
+  match before_char EOLC text with
+  | None => DetectNoNewline
+  | Some first =>
+      let tabcount := count_char TABC first in
+      if tabcount <? BEDCOV_MIN_TABS then DetectBadLine
+      else match lookup_cols tabcount BEDCOV_COLS_BY_TABS with
+           | Some cols => DetectCols cols
+           | None => DetectCols (BEDCOV_COLS_HEAD ++ filler_names tabcount ++ BEDCOV_COLS_TAIL)
+           end
+  end.
+
+(* quoting = 3 is csv.QUOTE_NONE: fields verbatim *)
+Definition unquote_field (quoting : Z) (f : list ascii) : option (list ascii) :=
+  if quoting =? 3 then Some f
+  else match f with
+       | c :: t =>
+           if is_char QUOTEC c then
+             match rev t with
+             | c' :: ri => if is_char QUOTEC c' && negb (existsb (is_char QUOTEC) ri) then Some (rev ri) else None
+             | [] => None
+             end
+           else Some f
+       | [] => Some f
+       end.
+
+(* column i of the names list holds field i of the record *)
+Fixpoint assoc_field (name : string) (cols fields : list string) : option string :=
+  match cols, fields with
+  | c :: ct, f :: ft => if String.eqb c name then Some f else assoc_field name ct ft
+  | _, _ => None
+  end.
+
+(* names stay text exactly when pandas is told so: dtype str for both name columns, no NA tokens *)
+Definition names_verbatim : bool :=
+  negb BEDCOV_KEEP_DEFAULT_NA && mem_string COL_CHROMOSOME BEDCOV_STR_COLUMNS && mem_string COL_GENE BEDCOV_STR_COLUMNS.
+Definition as_name (s : string) : string := if names_verbatim then s else "<re-typed by pandas>"%string.
+
+(* one parsed record: chromosome, start, end, gene (if the table has the column), basecount *)
+Definition parsed := (string * Z * Z * option string * Z)%type.
+
+Definition parse_fields (cols fields : list string) : option parsed :=
+  if negb (length fields =? length cols)%nat then None
+  else match assoc_field COL_CHROMOSOME cols fields, assoc_field COL_START cols fields,
+             assoc_field COL_END cols fields, assoc_field COL_BASECOUNT cols fields with
+       | Some c, Some s, Some e, Some b =>
+           match parse_Z s, parse_Z e, parse_Z b with
+           | Some lo, Some hi, Some n =>
+               Some (as_name c, lo, hi, option_map as_name (assoc_field COL_GENE cols fields), n)
+           | _, _, _ => None
+           end
+       | _, _, _, _ => None
+       end.
+
+Definition parse_line_q (quoting : Z) (cols : list string) (l : list ascii) : option parsed :=
+  match all_some (map (unquote_field quoting) (split_chars (is_char SEPC) l)) with
+  | Some fs => parse_fields cols (map unchars fs)
+  | None => None
+  end.
+
+Definition parse_bedcov_q (quoting : Z) (text : string) : option (list parsed) :=
+  match detect_bedcov_columns (chars text) with
+  | DetectCols cols => all_some (map (parse_line_q quoting cols) (text_lines (chars text)))
+  | _ => None
+  end.
+
+(* bedcov(): the table read from samtools' text *)
+Definition parse_bedcov (text : string) : option (list parsed) := parse_bedcov_q BEDCOV_QUOTING text.
+
+(* what samtools bedcov prints for one BED line and its base count *)
+Fixpoint join_chars (sep : ascii) (fs : list (list ascii)) : list ascii :=
+  match fs with
+  | [] => []
+  | [f] => f
+  | f :: t => f ++ sep :: join_chars sep t
+  end.
+
+Definition bed_fields (b : bedline) : list string :=
+  let '(c, lo, hi, rest) := b in c :: print_Z lo :: print_Z hi :: rest.
+
+Definition bedcov_line (bn : bedline * Z) : list ascii :=
+  join_chars SEPC (map chars (bed_fields (fst bn) ++ [print_Z (snd bn)])) ++ [EOLC].
+
+Definition bedcov_text (bins : list bedline) (counts : list Z) : string :=
+  unchars (concat (map bedcov_line (combine bins counts))).
+
+(* parallel.to_chunks on the lines of the file: lines whose first character is "#" are
+   dropped, the others are copied in order into pieces of chunk_size lines (the last one
+   possibly shorter; no empty piece is handed out) *)
+Definition keep_line (l : string) : bool :=
+  match l with
+  | String c _ => negb (String.eqb (String c EmptyString) CHUNK_COMMENT_PREFIX)
+  | EmptyString => true
+  end.
+
+Definition to_chunks_lines (k : nat) (lines : list string) : list (list string) :=
+  chunks k (filter keep_line lines).
+
+(* ========================================================================== *)
+(* Row order of the --count table: tabio.read_auto sorts the regions
+   (GenomicArray.sort = Model/Chromsort.v sort_regions: chromosome key, start, end;
+   stable), regions.by_chromosome() is a pandas groupby(sort=False) on the chromosome
+   NAME: groups in order of first appearance, rows of a group in table order. *)
+
+Definition bed_chrom (b : bedline) : string := let '(c, _, _, _) := b in c.
+Definition bed_region (b : bedline) : string * Z * Z := let '(c, lo, hi, _) := b in (c, lo, hi).
+Definition same_chrom (a b : bedline) : bool := String.eqb (bed_chrom a) (bed_chrom b).
+
+Fixpoint group_fuel (fuel : nat) (l : list bedline) : list bedline :=
+  match fuel with
+  | O => []
+  | S f => match l with
+           | [] => []
+           | x :: t => (x :: filter (same_chrom x) t) ++ group_fuel f (filter (fun y => negb (same_chrom x y)) t)
+           end
+  end.
+
+Definition group_by_chrom (l : list bedline) : list bedline := group_fuel (length l) l.
+
+Definition count_order (bins : list bedline) : list bedline := group_by_chrom (sort_regions bed_region bins).
+Definition count_order_fast (bins : list bedline) : list bedline := group_by_chrom (sort_regions_fast bed_region bins).
+
+Section WithLog2Text.
+Variable log2o : Q -> Q.
+
+(* interval_coverages_pileup after bedcov(): gene "-" when the column is absent,
+   depth = basecount / span where span > 0, log2 where depth > 0 *)
+Definition pileup_row_of_parsed (p : parsed) : row :=
+  let '(c, lo, hi, g, n) := p in
+  let d := pileup_depth n lo hi in
+  (c, lo, hi, match g with Some g' => g' | None => MISSING_GENE_NAME end, d, pileup_log2 log2o d).
+
+Definition pileup_table_of_text (text : string) : option (list row) :=
+  option_map (map pileup_row_of_parsed) (parse_bedcov text).
+
+(* the whole pileup path through text: every part (the file, or a chunk) goes through
+   samtools (bedcov_text of the part's bins and their pileup base counts), is parsed and
+   assembled; the tables are concatenated in order *)
+Definition bedcov_of (cut : Z) (reads : list read) (bins : list bedline) : string :=
+  bedcov_text bins (map (fun b : bedline => let '(c, lo, hi, _) := b in bases_pileup cut c lo hi reads) bins).
+
+Definition pileup_via_text (cut : Z) (reads : list read) (parts : list (list bedline)) : option (list row) :=
+  option_map (@concat row) (all_some (map (fun part => pileup_table_of_text (bedcov_of cut reads part)) parts)).
+
+(* the --count table: rows in the order of the sorted, chromosome-grouped regions *)
+Definition coverage_count_table (cut : Z) (reads : list read) (bins : list bedline) : list row :=
+  coverage log2o Count cut reads (count_order bins).
+
+(* the pileup table over a regions FILE (list of lines); `bed_of_line` is samtools' own
+   BED line reader (None for the lines it skips) *)
+Variable bed_of_line : string -> option bedline.
+
+Definition bins_of_lines (ls : list string) : list bedline :=
+  flat_map (fun l => match bed_of_line l with Some b => [b] | None => [] end) ls.
+
+Definition pileup_file (cut : Z) (reads : list read) (lines : list string) : list row :=
+  coverage log2o Pileup cut reads (bins_of_lines lines).
+
+Definition pileup_file_chunked (k : nat) (cut : Z) (reads : list read) (lines : list string) : list row :=
+  concat (map (fun piece => coverage log2o Pileup cut reads (bins_of_lines piece)) (to_chunks_lines k lines)).
+
+End WithLog2Text.
